@@ -158,7 +158,7 @@ func (z *ZodDiscriminatedUnion[T, R]) parseVariant(m map[string]any, dv any, pct
 		}
 		errs = append(errs, e)
 	}
-	return nil, issues.CreateInvalidUnionError(errs, m, pctx)
+	return nil, issues.CreateInvalidUnionErrorWithInst(errs, m, pctx, &z.internals.ZodTypeInternals)
 }
 
 // MustParse panics on validation failure.
